@@ -117,6 +117,28 @@ def tour_implicit_fn():
     return t
 
 
+def tour_two_files():
+    """elements created alternately in the main file and in an imported helper module"""
+    t = Tour("twofiles")
+    t.L("from nada_dsl import *")
+    t.L("from c19_helper_module import helper_mul, helper_input")
+    t.L("")
+    t.L("def nada_main():")
+    t.L("    p = Party(name='P0')", party="P0")
+    t.L("    a = SecretInteger(Input(name='a', party=p))", input="a")
+    t.L("    h = helper_input(p)")
+    t.L("    s = a - h", op="Subtraction")
+    t.L("    m = helper_mul(s, a)")
+    t.L("    r = m + a + h", op_at="Addition")
+    t.L("    return [Output(r, 'o', p)]", output="o")
+    return t
+
+
+HELPER_MODULE = ("from nada_dsl import *\n\n\n# a helper module of the user's program\n"
+                 "def helper_input(p):\n    return SecretInteger(Input(name='helper_in', party=p))\n\n\n"
+                 "def helper_mul(x, y):\n    return x * y\n")
+
+
 def all_cases():
     """(name, directory name, file name, text, tour)"""
     m, e, i = tour_main(), tour_edges(), tour_implicit_fn()
@@ -127,4 +149,6 @@ def all_cases():
         ("implicit-nada-fn", "progs", "implicit.py", i.text(), i),
         ("tour-crlf", "progs", "tour_crlf.py", m.text(eol="\r\n"), m),
         ("dir-named-like-the-package", "my_nada_dsl_programs", "tour3.py", m.text(), m),
+        ("file-named-like-the-package", "progs", "nada_dsl_tour.py", m.text(), m),
+        ("two-files", "progs2", "c19_main.py", tour_two_files().text(), tour_two_files()),
     ]
